@@ -574,6 +574,9 @@ void var_opt_union<T, A>::mark_moving_gadget_coercer(var_opt_sketch<T, A>& sk) c
   sk.h_ = result_h;
   sk.r_ = result_r;
   sk.total_wt_r_ = result_r_weight;
+
+  // H was filled in the gadget's (warm-up) array order; a sketch in sampling mode needs H to be a heap
+  sk.convert_to_heap();
 }
 
 // this is basically a continuation of get_result(), but modifying the input gadget copy
